@@ -52,6 +52,13 @@ def editor_cfg(modname, clsname, gen_fn, add_fn, var, sort_key=None):
     a = find_method(mod, cls, add_fn)[2]
     lo, hi, reserved = range_bounds(mod, cls, g)
     gsrc = ast.unparse(g)
+    # the local variable holding the free ids is whatever the result of the generator is bound to
+    # (its name is the author's business)
+    for node in ast.walk(a):
+        if isinstance(node, ast.Assign) and isinstance(node.value, ast.Call) and isinstance(node.value.func, ast.Attribute) and node.value.func.attr == gen_fn \
+                and len(node.targets) == 1 and isinstance(node.targets[0], ast.Name):
+            var = node.targets[0].id
+            break
     # consumed smallest first: list reversed then .pop()
     if ".reverse()" not in gsrc or f"{var}.pop()" not in ast.unparse(a):
         raise TranslatorGap(f"{clsname}: free ids are not consumed smallest-first")
@@ -64,7 +71,14 @@ def editor_cfg(modname, clsname, gen_fn, add_fn, var, sort_key=None):
         raise TranslatorGap(f"{clsname}: exhaustion test at the top of the loop")
     carried_first = None
     if sort_key is not None:
-        carried_first = f"sorted({sort_key[0]}, key=lambda {sort_key[1]}: {sort_key[1]}.index is None)" in asrc
+        carried_first = False
+        for node in ast.walk(a):
+            if isinstance(node, ast.Call) and isinstance(node.func, ast.Name) and node.func.id == "sorted":
+                for kw in node.keywords:
+                    if kw.arg == "key" and isinstance(kw.value, ast.Lambda) and len(kw.value.args.args) == 1:
+                        arg = kw.value.args.args[0].arg
+                        if ast.unparse(kw.value.body) == f"{arg}.index is None":
+                            carried_first = True
         if not carried_first:
             raise TranslatorGap(f"{clsname}: index-carrying objects are not placed first")
     return {"lo": lo, "hi": hi, "reserved": reserved, "raise": beh == "raise", "behaviour": beh}
@@ -91,10 +105,22 @@ def generate(gen_dir, build_dir, write_if_changed):
         g = find_method(mod, cls, "_generate_allocable_ids")[2]
         lo, hi, _ = range_bounds(mod, cls, g)
         src = ast.unparse(find_method(mod, cls, "rebuild_rich_swnm_from_rich_chk")[2])
-        for need in ["allocable_ids = cls._generate_allocable_ids(all_used_switches)", "if allocable_id_pointer > len(allocable_ids) - 1:", "raise ValueError(msg)",
-                     "id_ = allocable_ids[allocable_id_pointer]", "allocable_id_pointer += 1", "new_switches[used_switch.index] = used_switch"]:
-            if need not in src:
-                raise TranslatorGap(f"SWNM rebuilder lacks `{need}`")
+        # shapes with the local names left to the author; what matters: the free list is computed from the
+        # UNION of trigger-used and named switches, consumed through a pointer, exhaustion raises
+        import re
+
+        mu = re.search(r"(\w+) = (\w+)\.union\((\w+)\)", src)
+        mf = re.search(r"(\w+) = cls\._generate_allocable_ids\((\w+)\)", src)
+        if not mu or not mf or mf.group(2) != mu.group(1):
+            raise TranslatorGap("SWNM rebuilder: free ids are not computed from the union of used and named switches")
+        free = re.escape(mf.group(1))
+        mp = re.search(r"if (\w+) > len\(%s\) - 1:" % free, src)
+        if not mp:
+            raise TranslatorGap("SWNM rebuilder: no exhaustion test on the free-id pointer")
+        ptr = re.escape(mp.group(1))
+        for need in [r"raise ValueError\(\w+\)", r"\w+ = %s\[%s\]" % (free, ptr), r"%s \+= 1" % ptr, r"(\w+)\[(\w+)\.index\] = \2"]:
+            if not re.search(need, src):
+                raise TranslatorGap(f"SWNM rebuilder lacks the shape `{need}`")
         cfg["swnm"] = {"lo": lo, "hi": hi, "reserved": None, "raise": True, "behaviour": "raise"}
     except TranslatorGap as e:
         gaps.append(("swnm", str(e)))
